@@ -7,6 +7,8 @@
   by the engine (harness/engines/c31.py); nothing is claimed about them here.
 -/
 import PonyVerif.Lemmas.Serial
+import PonyVerif.Lemmas.BagWalk
+import PonyVerif.Gen.ReducePk
 namespace PonyVerif.Props.C31
 open PonyVerif.Model.Serial
 
@@ -111,5 +113,61 @@ example : bagCollectionKey ["k", "1"] ≠ bagCollectionKey ["k", "2"] := by deci
     harness/corpus/C31/collection-keys-single-pk-attribute-over-composite-key.json replays this on real Pony. -/
 theorem C31_old_attribute_test_collided :
     bagCollectionKeyOld 1 ["k", "1"] = bagCollectionKeyOld 1 ["k", "2"] ∧ (["k", "1"] : List String) ≠ ["k", "2"] := by decide
+
+/-! ### the source still has the shape the hand models mirror (definitions regenerated from /repo on every run) -/
+
+/-- `_reduce_composite_pk` is `','.join(str(item).replace('*', '**').replace(',', '*,') for item in pk)`:
+    the separator and the escape chain (in application order) are the ones `Model/Serial.lean` implements. -/
+theorem C31_source_encoding :
+    PonyVerif.Gen.ReducePk.sep = "," ∧ PonyVerif.Gen.ReducePk.replacements = [("*", "**"), (",", "*,")] := by decide
+
+/-- the three places that choose between the reduced text / raw tuple and the bare column value all test the number of
+    pk COLUMNS (`bagDictKey`, `bagCollectionKey`; `Entity.to_dict` reports whole raw tuples under the same test). -/
+theorem C31_source_key_tests :
+    PonyVerif.Gen.ReducePk.dictKeyTest = "len(entity._pk_columns_) > 1"
+    ∧ PonyVerif.Gen.ReducePk.collectionKeyTest = "len(attr.reverse.entity._pk_columns_) > 1"
+    ∧ PonyVerif.Gen.ReducePk.entityCollectionKeyTest = "len(attr.reverse.entity._pk_columns_) > 1" := by decide
+
+/-- the traversal has the shape `Model/BagWalk.lean` mirrors: given objects processed unconditionally, exactly two recursive
+    calls, both with `process_related=False` and both guarded by "not yet in bag.dicts[<its class>]", entry stored last. -/
+theorem C31_source_walk :
+    PonyVerif.Gen.ReducePk.walkGivenUnconditional = true ∧ PonyVerif.Gen.ReducePk.walkRecursiveCalls = 2
+    ∧ PonyVerif.Gen.ReducePk.walkGuards =
+        [("related_obj not in bag.dicts[related_obj.__class__]", "related_obj", "False"),
+         ("process_related_objects and value not in bag.dicts[value.__class__]", "value", "False")]
+    ∧ PonyVerif.Gen.ReducePk.walkLastStatement = "bag.dicts[entity][obj] = d" := by decide
+
+/-! ### the bag traversal: what `to_dict(objects)` contains, for every object graph and every order -/
+
+open PonyVerif.Model.BagWalk in
+/-- For EVERY object graph `rel`, every `related_objects` configuration `ro` and every list of given objects (in any order,
+    with repetitions): a given object gets a FULL entry (all configured attributes, collections included); an object that
+    is not given but is referred to by a given object whose entity has `related_objects` gets a REDUCED entry; nothing else
+    appears. -/
+theorem C31_bag_contents (rel : Nat → List Nat) (ro : Nat → Bool) (given : List Nat) (x : Nat) :
+    lookup (bagWalk rel ro given) x = spec rel ro given x := by
+  have := lookup_foldl rel ro given [] [] (by intro y; simp [lookup, spec]) x
+  simpa [bagWalk] using this
+
+open PonyVerif.Model.BagWalk in
+/-- the result does not depend on the order in which the objects are given (what 791b025 repaired) -/
+theorem C31_bag_order_independent (rel : Nat → List Nat) (ro : Nat → Bool) (g₁ g₂ : List Nat) (h : ∀ o, o ∈ g₁ ↔ o ∈ g₂) (x : Nat) :
+    lookup (bagWalk rel ro g₁) x = lookup (bagWalk rel ro g₂) x := by
+  rw [C31_bag_contents, C31_bag_contents]
+  unfold spec
+  have h2 : (g₁.any fun g => ro g && (rel g).contains x) = (g₂.any fun g => ro g && (rel g).contains x) := by
+    rw [Bool.eq_iff_iff]; simp only [List.any_eq_true]
+    exact ⟨fun ⟨g, hg, hp⟩ => ⟨g, (h g).mp hg, hp⟩, fun ⟨g, hg, hp⟩ => ⟨g, (h g).mpr hg, hp⟩⟩
+  rw [h2]
+  by_cases hx : x ∈ g₁
+  · simp [hx, (h x).mp hx]
+  · have : x ∉ g₂ := fun h' => hx ((h x).mpr h')
+    simp [hx, this]
+
+open PonyVerif.Model.BagWalk in
+example : -- a ↔ b related to each other, both given, in both orders (the input that used to lose `a.bs`)
+    let rel : Nat → List Nat := fun o => if o = 0 then [1] else if o = 1 then [0, 2] else []
+    lookup (bagWalk rel (fun _ => true) [0, 1]) 0 = some true ∧ lookup (bagWalk rel (fun _ => true) [1, 0]) 0 = some true
+    ∧ lookup (bagWalk rel (fun _ => true) [1, 0]) 2 = some false ∧ lookup (bagWalk rel (fun _ => true) [0]) 2 = none := by decide
 
 end PonyVerif.Props.C31
